@@ -42,7 +42,7 @@ func init() {
 			core.ReplayOf("choose", c08Choose), core.ReplayOf("misc", c08Misc),
 		},
 		Rule: "BetaInc on the full (a,b) lattice x an x lattice that contains k/64, extreme values and the branch switch-over (a+1)/(a+b+2) +-0,1,2 ulp; GammaInc/GammaIncComp on an (a,x) lattice containing x=a+1 +-0,1,2 ulp; " +
-			"every (n,k), 0<=n<=1000, -1<=k<=n+1, for Choose/Lchoose; Beta on the lattice; Sign on 9 values. Oracle: closed forms in 640-bit big.Float / big.Int for integer parameters, gonum/mathext elsewhere (cross-checked against the closed forms on every integer point). " +
+			"every (n,k), 0<=n<=1000, -1<=k<=n+1, for Choose/Lchoose; Beta on the lattice; Sign on 13 values incl. both signs of NaN. Oracle: closed forms in 640-bit big.Float / big.Int for integer parameters, gonum/mathext elsewhere (cross-checked against the closed forms on every integer point). " +
 			"A case (one parameter row) is non-trivial when it has interior arguments.",
 		Technique: "bounded-exhaustive lattice enumeration (exhaustive for Choose) of the real mathx functions against closed-form big.Float/big.Int references and gonum/mathext",
 		Assumptions: []string{
@@ -138,7 +138,7 @@ func c08Beta(c *C08Beta, r *core.Rec) {
 			}
 		}
 	}
-	for _, x := range []float64{-0.1, 1.1, -1e-300, 1 + 0x1p-52, -1e9, 1e9} {
+	for _, x := range []float64{-0.1, 1.1, -1e-300, -5e-324, -1e-17, 1 + 0x1p-52, -1e9, 1e9, math.Inf(1), math.Inf(-1)} {
 		if got := mathx.BetaInc(x, a, b); !math.IsNaN(got) {
 			r.Fail("BetaInc-NaN", "BetaInc(%v,%v,%v)=%v, want NaN", x, a, b, got)
 		}
@@ -238,7 +238,7 @@ func c08Gamma(c *C08Gamma, r *core.Rec) {
 		}
 		prevP, prevQ = p, q
 	}
-	for _, x := range []float64{-1e-300, -1, math.NaN(), math.Inf(-1)} {
+	for _, x := range []float64{-1e-300, -1, math.NaN(), math.Copysign(math.NaN(), -1), math.Inf(-1), -5e-324} {
 		if p, q := mathx.GammaInc(a, x), mathx.GammaIncComp(a, x); !math.IsNaN(p) || !math.IsNaN(q) {
 			r.Fail("GammaInc-NaN", "a=%v x=%v: got %v, %v, want NaN", a, x, p, q)
 		}
@@ -318,7 +318,7 @@ func c08Misc(c *C08Misc, r *core.Rec) {
 		return
 	}
 	cases := []struct{ x, want float64 }{
-		{math.Inf(-1), -1}, {-1, -1}, {-5e-324, -1}, {math.Copysign(0, -1), 0}, {0, 0}, {5e-324, 1}, {1, 1}, {math.Inf(1), 1}, {math.NaN(), math.NaN()},
+		{math.Inf(-1), -1}, {-1, -1}, {-5e-324, -1}, {math.Copysign(0, -1), 0}, {0, 0}, {5e-324, 1}, {1, 1}, {math.Inf(1), 1}, {math.NaN(), math.NaN()}, {math.Copysign(math.NaN(), -1), math.NaN()}, {-math.MaxFloat64, -1}, {math.MaxFloat64, 1},
 		{-1e308, -1}, {1e-308, 1},
 	}
 	for _, t := range cases {
